@@ -28,9 +28,9 @@ def run(ck):
     ]
     ck.finish("exploration",
               "for each reactor {epoll, poll, select}: one loop thread and 1..8 producer threads posting handlers, arming timers (past, equal, near, far), cancelling them (far: always, near: racing with expiry), arming readable/writeable waits on "
-              "socket pairs, cancelling them before/after readiness, closing devices with pending waits; inside one handler: cancel + close of a descriptor whose number a new socket takes at once and arms (the cancelled wait must hear the cancellation, not the new socket's event); cppcms::thread_pool with 1..6 workers and posters, cancelling and throwing jobs; seeded yield points inside the loop and the "
+              "socket pairs, cancelling them before/after readiness, closing devices with pending waits; a producer closing a descriptor with a wait pending and arming the socket that takes its number (not under ThreadSanitizer); inside one handler: cancel + close of a descriptor whose number a new socket takes at once and arms (the cancelled wait must hear the cancellation, not the new socket's event); cppcms::thread_pool with 1..6 workers and posters, cancelling and throwing jobs; seeded yield points inside the loop and the "
               "worker; every handler carries a unique id and the offline checker requires exactly one run, on the loop thread, with success/canceled as allowed and never before the deadline; ThreadSanitizer and ASan builds. "
               "non-trivial = distinct (reactor, producers, registered handlers) scenario shapes",
               "units_total", "shapes", min_evals=20000,
               required_nonzero=("slot_reuse_scenarios", "outcome_io_cancel_race_success", "outcome_io_cancel_race_canceled", "outcome_timer_fire_success",
-                                "outcome_timer_cancel_far_canceled", "outcome_io_readable_success", "jobs_cancelled", "jobs_ran", "jobs_throwing", "object_scenarios", "loop_scenarios", "pool_scenarios", "overtake_iterations", "double_wait_scenarios", "fd_reuse_scenarios", "near_deadline_groups", "rearm_scenarios", "hangup_cases", "prerun_scenarios", "yields_taken"))
+                                "outcome_timer_cancel_far_canceled", "outcome_io_readable_success", "jobs_cancelled", "jobs_ran", "jobs_throwing", "object_scenarios", "loop_scenarios", "pool_scenarios", "overtake_iterations", "double_wait_scenarios", "fd_reuse_scenarios", "descriptors_closed_with_a_pending_wait_and_reopened", "near_deadline_groups", "rearm_scenarios", "hangup_cases", "prerun_scenarios", "yields_taken"))
